@@ -9,6 +9,7 @@ Request:  run <flag 0|1> <path absent|file|dir> <excs> <body>
   body : prefix notation, tokens separated by one blank:
          nop | rc k | rn k | sr 0|1 | nest 0|1 B | fr 0|1 | cap | seq A B | h k B
          | fx bound acc rais B | fc bound acc rais k | rp d|n|r<k> B | rwc N|none|<k>
+         | nt 0|1 B LATE | hnt k 0|1 B LATE
          acc  = `-` or k,k,…      rais = `-` or k>k',…
 Reply (blank separated):
   out=ok|R:<who> tb=<tags> cause=-|N|<who> log=-|<who>/<tags>;… path=… ctx=<reraise>:<type>:<value>:<tags>
@@ -74,6 +75,17 @@ def parseBody : Nat → List String → Option (Body × List String)
       let rm ← parseRemove rm
       let (body, r) ← parseBody fuel r
       pure (.rpoe rm body, r)
+    | "nt" :: b :: r => do
+      let b ← parseBool b
+      let (body, r) ← parseBody fuel r
+      let (late, r) ← parseBody fuel r
+      pure (.nestThen b body late, r)
+    | "hnt" :: k :: b :: r => do
+      let k ← k.toNat?
+      let b ← parseBool b
+      let (body, r) ← parseBody fuel r
+      let (late, r) ← parseBody fuel r
+      pure (.handleNestThen k b body late, r)
     | "rwc" :: x :: r =>
       if x = "N" then some (.rwc none, r)
       else if x = "none" then some (.rwc (some none), r)
